@@ -68,9 +68,12 @@ TRUSTED = [
     "payload (a lossy raw shows up as a re-encoded-bytes disagreement)",
     "byte-payload clauses, NOT proved (implementation-level oracle only: generated values, per-byte boundary sweep, fuzz): keys whose "
     "tree is not translated (TextureEntry x5: TEExceptionField; ExtraParams: DictAdapter; NameValue: NameValuesSerializer; "
-    "ObjectUpdateCompressed.Data: ObjectStateAdapter + name-values; ParcelProperties.Bitmap: BitmapAdapter, no spec tree) and "
-    "translated trees outside the fragment (BitField members: ObjectExtraParams FLEXIBLE / LIGHT_IMAGE / a third sub-template, "
-    "ParcelOverlay.Data); for these the model-vs-implementation comparison still runs where a tree exists, the theorems do not apply",
+    "ObjectUpdateCompressed.Data: ObjectStateAdapter + name-values; ParcelProperties.Bitmap: BitmapAdapter, no spec tree), context "
+    "values for which a switched serializer has no sub-template (UNSERIALIZABLE / absent), and any translated tree the generated "
+    "obligation reports outside the fragment (none on the current tree: BitField members over an unsigned primitive are covered by "
+    "bf_law; excluded by construction and refuted by witnesses: Str(null_term=True), a length-framed or size-keyed wrapper around a "
+    "non-canonical member, an unshifted BitField with a Bool entry away from bit 0, ContextSwitch / ContextAdapter / FlagSwitch "
+    "combinators - the latter three occur in no registered tree); TextureEntry has its own model (B5 block below)",
     "the integer theorems are about integers as Python ints; packing them into the variable's bytes is C01/C02's subject",
     "the Coq model treats decode / encode as functions of (serializer, context values, wire value); that the implementation's "
     "decode really is one (no result shared between calls, no dependence on what earlier callers did to earlier results) is NOT "
@@ -104,11 +107,23 @@ TRUSTED = TRUSTED + [
     "TextureEntry, TIE: extracted model (separate driver coq/ocaml/c09te_driver.ml, built privately per run) vs the real classes: "
     "TEFaceBitfield on all tuples over faces 0..8, boundaries up to 1000 and all byte strings of length <= 1 (2 in part; all in "
     "thorough); synthetic entries built with the real _te_field / se.Dataclass / wrappers over U8 / U32 / UUID elements in an "
-    "exhaustive small scope (object-form values and every byte string over {00,01,02,80,81,ff} up to length 4/6); the live "
+    "exhaustive small scope (object-form values and every byte string over {00,01,02,80,81,ff} up to length 4/5); the live "
     "TE_SERIALIZER and both registered subfield serializer classes on random values, truncations and mutations; object and plain-data "
     "form; compared: serialize bytes / exception, accept / reject, decoded structure with dict order, bytes left, re-encoding.  Elements "
     "are compared through the real element spec applied to the model's raw element outside any TE code.  Python exceptions are only "
-    "compared as accept/reject; lazy_object_proxy results are forced",
+    "compared as accept/reject; lazy_object_proxy results are forced; a TE element that a repeated bitfield overwrites is decoded by the "
+    "real code but not handed to the real element spec by the harness (a refusing element spec would surface as an accept/reject "
+    "disagreement, i.e. fail closed; for ExtraParams every wire entry, overwritten or not, is validated)",
+    "ExtraParams (ObjectUpdate.ObjectData.ExtraParams; REFINES the 'ExtraParams: DictAdapter ... not translated' remark above): the dict "
+    "framing DictAdapter(Collection(U8, entry)) + SimpleSubfieldSerializer(EMPTY_IS_NONE) is modelled by hand in Spec/ExtraParamsModel.v "
+    "(count byte, entries in wire order, dict() = overwrite in place keeping the first position, tuple(dict.items()), > 255 entries "
+    "raise) and PROVED for every entry codec satisfying codec_rt / codec_sound (C09_dictcoll_*: what any wire sequence decodes to, "
+    "round trip of every dict <= 255 entries, one-pass fixed point of every accepted payload; byte identity refuted by a repeated type). "
+    "ASSUMED: the entry serializer EnumSwitch(IntEnum(ExtraParamType, U16), {t: TypedByteArray(U32, template)}) - the extracted "
+    "instance carries an entry as (type number, blob); the sub-templates are B1's / C08's subject and are applied by the harness, outside "
+    "the dict code, to compare values.  TIE: the same private driver vs the real registered serializer on ordered selections of "
+    "types, pair sequences and wire sequences WITH repeated types, wrong counts, unknown types, prefixes, mutations, both forms; the "
+    "structure of EXTRA_PARAM_COLLECTION is checked fail-closed each run",
     "TextureEntry, NOT covered: TextureEntryCollection.realize / from_tes (only realize_face's merge refutation is stated), ParseContext "
     "plumbing, dict values that are not dicts, keys that are not tuples of non-negative ints",
 ]
@@ -161,8 +176,8 @@ def payload_note(ents):
     nospec = sorted({en.keytxt for en in ents if en.spec is None and not any(o.keytxt == en.keytxt and o.spec is not None for o in ents)})
     return ("byte-payload clauses: %d registered byte-payload keys, %d (key, context value) pairs, %d with a spec tree, %d translated to "
             "Spec terms, %d inside the proved fragment (wf && sound_frag && simple_ok; %d of them canonical = every accepted payload is "
-            "its own fixed point): C09_payload_registry_fixed_point / _own_output are instantiated at exactly these.  Keys with EVERY "
-            "context value proved (%d): %s.  Keys partly proved (%d): %s.  Translated but OUTSIDE the fragment, oracle only (%d): %s.  "
+            "its own fixed point): C09_payload_registry_fixed_point / _own_output are instantiated at exactly these.  Keys proved for EVERY "
+            "context value that selects a sub-template (%d): %s.  Keys partly proved (%d): %s.  Translated but OUTSIDE the fragment, oracle only (%d): %s.  "
             "NOT translated, oracle only (%d keys): %s.  No spec tree at all (adapter-only serializer), oracle only: %s"
             % (len(sm["per_key"]), len(ents), sum(1 for en in ents if en.spec is not None), sum(1 for en in ents if en.node is not None),
                sum(1 for en in ents if en.inside), sum(1 for en in ents if en.inside and en.canon),
@@ -1073,6 +1088,64 @@ def payload_obs_text(obs, model=None):
     return "accept %s -> %s" % (obs[2] if obs[2] is not None else "?", "ERR" if isinstance(b1, str) else S.hb(b1))
 
 
+WITNESSES = [
+    # (name in Props/C09.v, spec, payload, what one decode-encode pass does)
+    ("C09_str_null_term_refuted", "( str u 1 1 )", bytes([255]) + b"A" * 255, "accepted, re-encoding fails"),
+    ("C09_typed_fixed_noncanonical_refuted", "( typed ( fixed 2 ) 0 1 ( cstr ( 0 ) 1 1 ) )", b"AB", "accepted, re-encoding fails"),
+    ("C09_lenswitch_default_noncanonical_refuted", "( lenswitch ( 1 ( prim u 1 ) ) ( none ( cstr ( 0 ) 1 1 ) ) )", b"",
+     "accepted, re-encoding decodes to another value"),
+    ("C09_bitfield_bool_unshifted_refuted", "( adapter ( bitfield 0 ( 0 7 ( none ) ) ( 1 1 ( bool ) ) ) ( prim u 1 ) )", bytes([128]),
+     "accepted, re-encoding fails"),
+]
+
+
+def _witness_cases(exe, F):
+    """the witnesses of the ..._refuted theorems, replayed on the REAL combinator classes and on the extracted model: the
+    classes excluded from sound_frag really do accept a payload they cannot write back / that lands on another value"""
+    from harness.props import c08 as C08
+    from harness.translate import c08_specs as S
+    out = []
+    for name, sx, payload, expect in WITNESSES:
+        node = S.node_of_sx(S.parse_sx(sx))
+        obj = S.build(node)
+
+        def classify(accepted, reenc, redecoded_same):
+            if not accepted:
+                return "rejected"
+            if reenc is None:
+                return "accepted, re-encoding fails"
+            return "accepted, re-encoding decodes to the same value" if redecoded_same else "accepted, re-encoding decodes to another value"
+        # implementation
+        r = C08.impl_de(obj, payload, "<", False)
+        if r[0] != "OK" or r[2] != 0:
+            impl = classify(False, None, False)
+        else:
+            b1 = C08.impl_ser(obj, r[1], "<")
+            if isinstance(b1, str):
+                impl = classify(True, None, False)
+            else:
+                r2 = C08.impl_de(obj, bytes(b1), "<", False)
+                try:
+                    same = r2[0] == "OK" and r2[2] == 0 and S.to_sx(node, False, r2[1]) == S.to_sx(node, False, r[1])
+                except Exception:
+                    same = False
+                impl = classify(True, bytes(b1), same)
+        # model
+        m = F.run_driver(exe, ["de < 0 %s %s" % (sx, S.hb(payload))])[0].strip()
+        if not m.startswith("OK ") or m.rsplit(" ", 1)[1] != "0":
+            model = classify(False, None, False)
+        else:
+            val = m[3:].rsplit(" ", 1)[0]
+            m2 = F.run_driver(exe, ["ser < %s %s" % (sx, val)])[0].strip()
+            if not m2.startswith("OK "):
+                model = classify(True, None, False)
+            else:
+                m3 = F.run_driver(exe, ["de < 0 %s %s" % (sx, m2[3:])])[0].strip()
+                model = classify(True, m2[3:], m3 == m)
+        out.append({"name": name, "spec": sx, "payload": payload.hex(), "expect": expect, "impl": impl, "model": model})
+    return out
+
+
 def model_cases(ctx, en, n_gen, n_pos, n_vals):
     """payloads for one (key, context) spec tree: own output of generated values, a per-byte sweep of one or two of them
     (structured non-canonical inputs: presence bytes other than 0/1, unknown enum values and flag bits, lengths, ...),
@@ -1155,7 +1228,7 @@ def corr_payload_model(ctx, reg):
                           "for which the size-based guess picks another template.  non-trivial = accepted payloads that are NOT their own "
                           "re-encoding or that were not produced by the serializer itself")
     ents = [en for en in c09_payload.entries(reg) if en.node is not None]
-    n_gen, n_pos, n_vals = ctx.pick(3, 12), ctx.pick(10, 400), ctx.pick(2, 6)
+    n_gen, n_pos, n_vals = ctx.pick(3, 10), ctx.pick(10, 120), ctx.pick(2, 4)
     cases = []        # (entry, payload, origin, pod, impl observation)
     dist = {}
     seen_tree = {}
@@ -1202,6 +1275,7 @@ def corr_payload_model(ctx, reg):
                     idx.append(i)
                     second.append("ser < %s %s" % (sx, val))
         out2 = F.run_driver(exe, second, timeout=900) if second else []
+        wit = _witness_cases(exe, F)
     finally:
         import shutil
         shutil.rmtree(os.path.dirname(exe), ignore_errors=True)
@@ -1259,7 +1333,13 @@ def corr_payload_model(ctx, reg):
             if en.inside and en.canon:
                 res.disagreements.append(dict(info, what="a payload of a spec proved canonical is not its own re-encoding",
                                               model=m_b[:300], impl=i_b[:300]))
-    res.evaluations = len(cases) + len(second)
+    for w in wit:
+        bump("refutation witnesses replayed on the real classes")
+        if w["model"] != w["impl"] or w["model"] != w["expect"]:
+            res.disagreements.append({"what": "refutation witness (Props/C09.v) no longer behaves as proved / as the real class",
+                                      "witness": w["name"], "spec": w["spec"], "payload": w["payload"], "model": w["model"],
+                                      "impl": w["impl"], "expected": w["expect"]})
+    res.evaluations = len(cases) + len(second) + 2 * len(wit)
     res.distinct_nontrivial = nontriv
     dist["spec trees (key, context)"] = len(ents)
     dist["~ per (key, context): cases/accepted"] = "; ".join("%s %d/%d" % (k, a[0], a[1]) for k, a in sorted(per_key.items()))[:6000]
@@ -1446,7 +1526,7 @@ def search(ctx, hints):
         if d and str(d.get("kind", "")).startswith("te"):
             d = dict(d)
             d.setdefault("class", "te-model:" + str(d.get("what", "")).replace(" ", "-"))
-            d.setdefault("clause", "the TextureEntry codec does what the proved framing model computes (" + str(d.get("what")) + ")")
+            d.setdefault("clause", "the TextureEntry / ExtraParams framing does what the proved framing model computes (" + str(d.get("what")) + ")")
             return d
     for h in hints:
         d = h.get("disagreement")
